@@ -21,7 +21,6 @@ import numpy as np
 from harness.common import frac, err_kind, deep_compare
 
 PID = "C23"
-DISABLED = True
 THEOREMS = [
     "PorepyVerif.C23.refine1d_refines_spec",
     "PorepyVerif.C23.refine1d_child_vector",
@@ -33,6 +32,7 @@ THEOREMS = [
     "PorepyVerif.C23.remesh1d_measure",
     "PorepyVerif.C23.tri_children_coords",
     "PorepyVerif.C23.tri_children_area",
+    "PorepyVerif.C23.tri_child_centroid_inside",
     "PorepyVerif.C23.tri_parent_map_total",
     "PorepyVerif.C23.structured_refinement_contains",
     "PorepyVerif.C23.inside1d_iff",
@@ -69,7 +69,7 @@ EXPLANATION = ("CORE (partial): the models cover the index bookkeeping and the c
                "structured_refinement and the node/face/cell numbering and cell/face maps of extrude_grid. Theorems: the refine_grid_1d loop refines the "
                "geometric spec for every input (refine1d_refines_spec), children of a 1-d cell add up to the parent and lie inside it with parent i/r "
                "(refine1d_measure, refine1d_parent_unique), remesh covers the same segment with equal cells (remesh1d_measure), the four children of a triangle "
-               "have 1/4 of the signed area each and barycentric coordinates >= 0 (tri_children_coords, tri_children_area), parent map total with 4 children "
+               "have 1/4 of the signed area each, barycentric coordinates >= 0 and their centres strictly inside the parent (tri_children_coords, tri_children_area, tri_child_centroid_inside), parent map total with 4 children "
                "per parent (tri_parent_map_total), the structured sweep assigns each fine cell to the unique coarse cell containing its centre for any "
                "containment test (structured_refinement_contains), extruded measure = base measure x height for any layer sequence and the prism formulas "
                "(extrude_measure, extrude_prism_measure), the cell map is a bijection per layer and each new cell is the prism over its parent "
@@ -178,6 +178,13 @@ FAN_RING = [(4, 0), (3, 3), (0, 4), (-3, 3), (-4, 0), (-3, -3), (0, -4), (3, -3)
 
 
 def _gen_tri(rng, tier):
+    while True:  # jitter can (rarely) flatten a triangle: draw again
+        base = _gen_tri_once(rng, tier)
+        if base is not None:
+            return base
+
+
+def _gen_tri_once(rng, tier):
     style = rng.choice(["single", "struct", "struct", "struct", "fan"])
     if style == "single":
         while True:
@@ -222,7 +229,8 @@ def _gen_tri(rng, tier):
     tris = [t[s:] + t[:s] for t in tris for s in [rng.randrange(3)]]
     if rng.random() < 0.5:
         rng.shuffle(tris)
-    assert all(_area2(*[new_pts[v] for v in t]) > 0 for t in tris)
+    if not all(_area2(*[new_pts[v] for v in t]) > 0 for t in tris):
+        return None
     return {"type": "tri", "nodes": [[frac(x), frac(y)] for x, y in new_pts], "tris": tris}
 
 
@@ -526,9 +534,27 @@ def _fail(case, key, what):
     return {"what": f"{case['kind']}: {what}", "key": f"{case['kind']}-{key}"}
 
 
+class _Raised(Exception):
+    """An anchored function raised on a valid input: a property failure, not a harness problem."""
+
+    def __init__(self, name, e):
+        super().__init__(f"{name} raised {type(e).__name__}: {e}")
+        self.key = f"raises-{name}-{type(e).__name__}"
+
+
+def _call(fn, *args):
+    try:
+        return fn(*args)
+    except Exception as e:
+        raise _Raised(fn.__name__, e)
+
+
 def _valid_grid(g):
     """Positive measures, closed cells, normals consistent with the cell-face signs. Returns None or a reason."""
-    g.compute_geometry()
+    try:
+        g.compute_geometry()
+    except Exception as e:
+        return f"compute_geometry raised {type(e).__name__}: {e}"
     if not (np.all(np.isfinite(g.cell_volumes)) and np.all(g.cell_volumes > 0)):
         return "non-positive cell volume"
     if g.dim >= 1 and not np.all(g.face_areas > 0):
@@ -573,7 +599,7 @@ def _oracle_refine1d(case):
 
     g = build_base(case["base"])
     r = case["ratio"]
-    h = refinement.refine_grid_1d(g, r)
+    h = _call(refinement.refine_grid_1d, g, r)
     why = _valid_grid(h)
     if why:
         return _fail(case, "invalid-grid", why)
@@ -619,7 +645,7 @@ def _oracle_remesh1d(case):
 
     g = build_base(case["base"])
     n = case["n"]
-    h = refinement.remesh_1d(g, n)
+    h = _call(refinement.remesh_1d, g, n)
     why = _valid_grid(h)
     if why:
         return _fail(case, "invalid-grid", why)
@@ -649,8 +675,9 @@ def _oracle_tri(case):
     from porepy.grids import refinement
 
     g = build_base(case["base"])
-    h, parent = refinement.refine_triangle_grid(g)
     nc = g.num_cells
+    cf0 = g.cell_faces.indices.reshape((3, nc), order="F").copy()  # as refine_triangle_grid reads it (cell_nodes() sorts it in place later)
+    h, parent = _call(refinement.refine_triangle_grid, g)
     if h.num_cells != 4 * nc or len(parent) != 4 * nc or h.num_nodes != g.num_nodes + g.num_faces:
         return _fail(case, "num-cells", f"{h.num_cells} cells, {len(parent)} parents, {h.num_nodes} nodes for {nc} coarse cells")
     P = [(Fr(float(h.nodes[0, i])), Fr(float(h.nodes[1, i]))) for i in range(h.num_nodes)]
@@ -667,7 +694,7 @@ def _oracle_tri(case):
 
     def nested_key():
         # Is the failure exactly the recorded one (np.argwhere lists the shared corner nodes row-major instead of per cell)?
-        cf = g.cell_faces.indices.reshape((3, nc), order="F")
+        cf = cf0
         pred = np.empty((3, nc, 4), dtype=int)
         for ti, b in enumerate(((1, 0), (2, 1), (0, 2))):
             loc = np.sort(np.vstack((fn[:, cf[b[0]]], fn[:, cf[b[1]]])), axis=0)
@@ -695,8 +722,8 @@ def _oracle_tri(case):
         if abs(_area2(*v)) * 4 != abs(_area2(*coarse[c])):
             return _fail(case, nested_key(), f"new cell {j} does not have 1/4 of the area of coarse cell {c}")
         true_parent.append(c)
-    if sorted(true_parent) != sorted(list(range(nc)) * 4):
-        return _fail(case, nested_key(), "some coarse cell does not have exactly four children")
+    if sorted(true_parent) != sorted(list(range(nc)) * 4) or len({tuple(sorted(c)) for c in cnh}) != 4 * nc:
+        return _fail(case, nested_key(), "some coarse cell does not have exactly four distinct children")
     if h.history[-1:] != ["Refinement"] or h.dim != 2:
         return _fail(case, "history", "history/dim not updated")
     par = [int(p) for p in parent]
@@ -722,12 +749,12 @@ def _oracle_sref(case):
     k = case["kind"]
     if k == "sref1d":
         g = build_base(case["base"])
-        h = refinement.refine_grid_1d(g, case["ratio"])
+        h = _call(refinement.refine_grid_1d, g, case["ratio"])
     elif k == "sref2d":
         g, h, _, _, true_parent = _sref2d_grids(case)
     else:
         g, h = _sref3d_grids(case)
-    m = refinement.structured_refinement(g, h)
+    m = _call(refinement.structured_refinement, g, h)
     if m.shape != (h.num_cells, g.num_cells):
         return _fail(case, "shape", f"mapping has shape {m.shape}, expected {(h.num_cells, g.num_cells)}")
     m = m.tocsr()
@@ -925,6 +952,13 @@ def _oracle_extrude_mdg(case):
 
 
 def oracle(case):
+    try:
+        return _oracle(case)
+    except _Raised as e:
+        return _fail(case, e.key, f"valid input: {e}")
+
+
+def _oracle(case):
     k = case["kind"]
     if k == "refine1d":
         return _oracle_refine1d(case)
